@@ -93,6 +93,19 @@ def run(ctx):
 
     _r2(ctx)
     _r3(ctx, prods)
+    # R4: a failed load leaves no loader state behind -- what a load pushes on
+    # the loader it pops in a finally (decision tables with exception paths
+    # equal to the reference); the rest of that clause is C13.R1/R6, C12.R4
+    from rules.common import crosscheck
+    run.rule("C19.R4", "loader state pushed during a load is restored on "
+             "every exit, normal or exceptional", floor=2)
+    CL = "ZConfig.loader.ConfigLoader"
+    crosscheck(ctx, "C19.R4", CL + ".includeConfiguration", "ref_loader.py",
+               "includeConfiguration", CL,
+               "open-URL chain: append, then pop in a finally")
+    crosscheck(ctx, "C19.R4", CL + ".loadResource", "ref_loader.py",
+               "loadResource", CL,
+               "open-URL chain: append, then pop in a finally")
 
 
 def _r2(ctx):
